@@ -147,6 +147,20 @@ def install(model, seeds, with_stats=True, reuse_streams=False, long_lived_produ
                 # repository's own StatisticsModel test); the statistics are still rebuilt by construct_model
                 if m.producer_objects is None:
                     m.producer_objects = {k: EventProducer() for k in "ctwp"}
+                    # two ordinary listeners of the tally's data (a logger and a monitor) that live as long as
+                    # the producer; they are notified in subscription order and each takes a number from stream 0
+                    from pydsol.core.pubsub import EventListener
+                    from pydsol.core.interfaces import StatEvents as _SE
+
+                    class Ordinary(EventListener):
+                        def __init__(self, tag):
+                            self.tag = tag
+
+                        def notify(self, event):
+                            if m.streams:
+                                m.draws.append([self.tag, float(m.streams[0].next_float()).hex()])
+                    m.ordinary = [Ordinary("A"), Ordinary("B")]
+                    m.pending_ordinary = True
                 m.prod = m.producer_objects
             else:
                 m.prod = {k: EventProducer() for k in "ctwp"}
@@ -162,6 +176,11 @@ def install(model, seeds, with_stats=True, reuse_streams=False, long_lived_produ
                 s_.listen_to(m.prod[k])
                 if two_types:
                     s_.listen_to(m.prod[k], alt_types()[k])
+            if long_lived_producers and getattr(m, "pending_ordinary", False):
+                from pydsol.core.interfaces import StatEvents as _SE2
+                m.pending_ordinary = False
+                for o in m.ordinary:            # subscribed once, AFTER the statistic of the first replication
+                    m.prod["t"].add_listener(_SE2.DATA_EVENT, o)
             m.obs_n = 0
 
     def action(m, a):
